@@ -23,8 +23,9 @@ EXTENDS Naturals, Sequences, FiniteSets, Json, IOUtils, TLC
 
 Traces == ndJsonDeserialize(IOEnv.TRACE_FILE)
 
-VARIABLES tid, l, cur, subs, pc, chg
-vars == <<tid, l, cur, subs, pc, chg>>
+VARIABLES tid, l, cur, subs, pc, chg,
+          opt       \* name of the current optimiser (session composition: fits must run under the current state)
+vars == <<tid, l, cur, subs, pc, chg, opt>>
 
 Tr == Traces[tid]
 Ev == Tr.events[l]
@@ -35,6 +36,7 @@ Consume == l' = l + 1 /\ tid' = tid
 StartOf(t) == /\ cur = <<Traces[t].init.cur[1], Traces[t].init.cur[2]>>
               /\ subs = [k \in 1..Traces[t].init.n |-> [owner |-> 0, alive |-> TRUE, pre |-> cur]]
 Init == /\ tid = 1 /\ l = 1 /\ pc = "idle" /\ chg = FALSE
+        /\ opt = IF Len(Traces) >= 1 THEN Traces[1].init.opt ELSE "scipy"
         /\ IF Len(Traces) >= 1 THEN StartOf(1) ELSE cur = <<"numpy", "64b">> /\ subs = <<>>
 
 TSubscribe ==
@@ -43,12 +45,12 @@ TSubscribe ==
      THEN /\ subs' = Append(subs, [owner |-> Ev.owner, alive |-> TRUE, pre |-> cur])
           /\ Ev.n = Len(subs')                 \* registry length as logged
      ELSE UNCHANGED subs
-  /\ UNCHANGED <<cur, pc, chg>>
+  /\ UNCHANGED <<cur, pc, chg, opt>>
 
 TSwap ==
   /\ Is("set_backend.swap") /\ pc = "idle" /\ Consume
   /\ Ev.tensorlib_changed = (<<Ev.name, Ev.precision>> # cur)        \* EventIffChanged (decision)
-  /\ cur' = <<Ev.name, Ev.precision>> /\ chg' = Ev.tensorlib_changed /\ pc' = "swapped"
+  /\ cur' = <<Ev.name, Ev.precision>> /\ chg' = Ev.tensorlib_changed /\ pc' = "swapped" /\ opt' = Ev.optimizer
   /\ UNCHANGED subs
 
 TTrigger ==
@@ -63,7 +65,7 @@ TTrigger ==
           ELSE /\ pc = "idle"
                /\ pc' = IF Ev.noop THEN "idle" ELSE "mtriggered"
      ELSE UNCHANGED pc
-  /\ UNCHANGED <<cur, subs, chg>>
+  /\ UNCHANGED <<cur, subs, chg, opt>>
 
 TCall ==     \* the callback list about to be run, in order, with liveness
   /\ Is("events.call") /\ Consume
@@ -75,7 +77,7 @@ TCall ==     \* the callback list about to be run, in order, with liveness
                                                                !.pre = IF Ev.callbacks[k][3] THEN cur ELSE @]]
           /\ pc' = IF pc = "triggered" THEN "called" ELSE "mcalled"
      ELSE UNCHANGED <<subs, pc>>            \* Callables of other events
-  /\ UNCHANGED <<cur, chg>>
+  /\ UNCHANGED <<cur, chg, opt>>
 
 TFlush ==
   /\ Is("events.flush") /\ Consume
@@ -85,12 +87,12 @@ TFlush ==
           /\ subs' = SelectSeq(subs, LAMBDA s : s.alive)
           /\ pc' = IF pc = "mcalled" THEN "idle" ELSE pc
      ELSE UNCHANGED <<subs, pc>>                   \* flush of another event's list
-  /\ UNCHANGED <<cur, chg>>
+  /\ UNCHANGED <<cur, chg, opt>>
 
 \* after a hand-fired event without dead entries there is no flush record: back to idle silently with the next record
 TManualDone ==
   /\ More /\ pc = "mcalled" /\ Ev.ev # "events.flush"
-  /\ pc' = "idle" /\ UNCHANGED <<tid, l, cur, subs, chg>>
+  /\ pc' = "idle" /\ UNCHANGED <<tid, l, cur, subs, chg, opt>>
 
 TFired ==
   /\ Is("set_backend.fired") /\ Consume
@@ -99,15 +101,15 @@ TFired ==
   \* after the callbacks no dead entry is left and every live one was re-derived for cur
   /\ (chg => \A k \in 1..Len(subs) : subs[k].alive /\ subs[k].pre = cur)
   /\ pc' = "fired"
-  /\ UNCHANGED <<cur, subs, chg>>
+  /\ UNCHANGED <<cur, subs, chg, opt>>
 
 TDone ==
   /\ Is("set_backend.done") /\ pc = "fired" /\ Consume
   /\ pc' = "idle" /\ chg' = FALSE
-  /\ UNCHANGED <<cur, subs>>
+  /\ UNCHANGED <<cur, subs, opt>>
 
 \* harness-side markers (object dropped by the driver: informational, the entry dies silently)
-TMarker == Is("marker") /\ Consume /\ UNCHANGED <<cur, subs, pc, chg>>
+TMarker == Is("marker") /\ Consume /\ UNCHANGED <<cur, subs, pc, chg, opt>>
 
 NextTrace ==
   /\ tid <= Len(Traces) /\ l = Len(Tr.events) + 1 /\ pc \in {"idle", "mcalled"}
@@ -117,8 +119,17 @@ NextTrace ==
      THEN /\ cur' = <<Traces[tid + 1].init.cur[1], Traces[tid + 1].init.cur[2]>>
           /\ subs' = [k \in 1..Traces[tid + 1].init.n |-> [owner |-> 0, alive |-> TRUE, pre |-> cur']]
      ELSE UNCHANGED <<cur, subs>>
+  /\ opt' = IF tid + 1 <= Len(Traces) THEN Traces[tid + 1].init.opt ELSE opt
 
-Next == TSubscribe \/ TSwap \/ TTrigger \/ TCall \/ TFlush \/ TManualDone \/ TFired \/ TDone \/ TMarker \/ NextTrace
+\* session composition (PyhfSession): a fit (hook H4) runs only while no backend switch is in flight and under the
+\* backend and optimiser that are current according to the set_backend records
+TFit ==
+  /\ Is("fit.shim") /\ Consume
+  /\ pc \in {"idle", "mcalled"}
+  /\ Ev.backend = cur[1] /\ Ev.optimizer = opt
+  /\ UNCHANGED <<cur, subs, pc, chg, opt>>
+
+Next == TFit \/ TSubscribe \/ TSwap \/ TTrigger \/ TCall \/ TFlush \/ TManualDone \/ TFired \/ TDone \/ TMarker \/ NextTrace
 TraceSpec == Init /\ [][Next]_vars
 
 \* every live entry is current whenever no switch is in flight -- evaluated at every step of every trace
